@@ -228,7 +228,10 @@ func (g *G) randType(m Mode, floor Mode, d int, out bool) *Ty {
 		// alias: a fresh named type
 		t := g.randType(m, floor, d-1, out)
 		if t.K == KName {
-			return t
+			if !g.coin(50) {
+				return t
+			}
+			g.feat("pure-alias") // type Tn = Tm
 		}
 		g.nTy++
 		name := fmt.Sprintf("T%d", g.nTy)
